@@ -487,7 +487,7 @@ def _run_monitor(ctx, R, tier, t_start):
     bsize = 250 if tier == "quick" else 1000
     batches = [streams[i:i + bsize] for i in range(0, len(streams), bsize)]
     settle = 1200 if tier == "quick" else 2500
-    deadline = time.time() + ({"quick": 75, "thorough": 1500}.get(tier, 75))
+    deadline = time.time() + ({"quick": 45, "thorough": 1500}.get(tier, 45))
     cover_batches = set(range(0, len(batches), max(1, len(batches) // (6 if tier == "quick" else 40)))) if R.cover_exe else set()
     skipped = [0]
 
@@ -552,12 +552,17 @@ def _run_monitor(ctx, R, tier, t_start):
         for v, ve in vs[:limit]:
             jobs.append((sig, v, ve))
 
+    corpus_sigs = {sig for sig, res, prefix, sub, src in found_all if src.startswith("corpus")}
+
     def min_job(item):
         wid, (sig, v, ve) = item
         res, prefix, sub, src = ve["first"]
-        if time.time() > deadline + 45 and is_known(sig):
-            return sig, v, prefix[-1:], {"reproduced": None, "note": "not minimised (time budget)"}
-        cur, info = R.minimise(wid % R.nworkers, sig, res, list(prefix), sub, budget_s=60 if tier == "quick" else 240)
+        if is_known(sig) and tier == "quick" and (sig in corpus_sigs or time.time() > deadline + 15):
+            # a minimal replay of this known finding is in corpus/C13 (and was re-run above): do not spend the quick
+            # tier's time on minimising it again
+            return sig, v, prefix[-1:] if src != "generated" or len(prefix) == 1 else prefix[-1:], {
+                "reproduced": None, "note": "known finding, not minimised in the quick tier (see corpus/C13)"}
+        cur, info = R.minimise(wid % R.nworkers, sig, res, list(prefix), sub, budget_s=30 if tier == "quick" else 240)
         return sig, v, cur, info
 
     minimised = {}
